@@ -54,6 +54,8 @@ type gUnit struct {
 	pcrBase  uint64
 	pcrExt   uint16
 	priv     []byte
+	tPCR     uint16 // tables unit: PCR PID and streams at the time of the emission
+	tES      []gES
 }
 
 func newGMux(period int) *gMux {
@@ -200,7 +202,12 @@ func (g *gMux) checkTables(b []byte) {
 	g.pmtSeen, g.pmtVersion = true, ver
 	g.dirty = false
 	g.tablesFailed = false
-	g.written = append(g.written, gUnit{isTables: true})
+	// what the program map looked like at this emission (compared with what the Demuxer decodes: C01, C13)
+	tu := gUnit{isTables: true, tPCR: g.pcrPID}
+	for _, e := range g.es {
+		tu.tES = append(tu.tES, gES{pid: e.pid, typ: e.typ})
+	}
+	g.written = append(g.written, tu)
 }
 
 // ---- operations ----
@@ -294,6 +301,12 @@ func vMuxData(pid uint16, afCase, hdrCase, plen int) (*MuxerData, gUnit) {
 		u.hasAF = true
 		u.priv = vnondetBytes(175)
 		d.AdaptationField = &PacketAdaptationField{HasTransportPrivateData: true, TransportPrivateDataLength: 175, TransportPrivateData: u.priv}
+	case 10:
+		// an adaptation field as the Demuxer hands it out (PCR only, Length already set to 7): the muxer adds stuffing
+		// and must write the length of what it emits, not the stale field
+		u.hasAF, u.rai, u.hasPCR = true, vnondetBool(), true
+		u.pcrBase, u.pcrExt = vTS33(), vBits16(9)
+		d.AdaptationField = &PacketAdaptationField{Length: 7, RandomAccessIndicator: u.rai, HasPCR: true, PCR: &ClockReference{Base: int64(u.pcrBase), Extension: int64(u.pcrExt)}}
 	case 9:
 		// private data so long that the adaptation field alone exceeds a packet (F4 region as well)
 		u.hasAF = true
@@ -541,6 +554,29 @@ func (g *gMux) demuxAll() {
 		}
 	}
 	vassert("C01.demux.tables.count", gt == 2*nt)
+	// every decoded PMT describes the streams and the PCR PID configured when it was emitted (in emission order)
+	ti := 0
+	for _, d := range got {
+		if d.PMT == nil {
+			continue
+		}
+		for ti < len(g.written) && !g.written[ti].isTables {
+			ti++
+		}
+		if ti >= len(g.written) {
+			break
+		}
+		tu := g.written[ti]
+		ti++
+		ok := d.PMT.PCRPID == tu.tPCR && len(d.PMT.ElementaryStreams) == len(tu.tES)
+		if ok {
+			for i, e := range tu.tES {
+				ok = ok && d.PMT.ElementaryStreams[i].ElementaryPID == e.pid && d.PMT.ElementaryStreams[i].StreamType == e.typ
+			}
+		}
+		vassert("C01.demux.pmt.content", ok)
+		vassert("C13.mux.pmt.content", ok)
+	}
 	vassertK("C01.demux.pes.count", "F14", g.readded, gp == np)
 	if g.readded {
 		return
@@ -894,4 +930,26 @@ func HarnessMuxPair(i1, i2, third int) {
 	}
 	g.demuxAll()
 	vreach("mux.pair.end")
+}
+
+// HarnessMuxPCRMove: the PCR PID is moved between two configured streams (no stream added or removed) between table
+// emissions, twice: every PMT on the wire names the PCR PID configured when it was emitted, with a bumped version
+func HarnessMuxPCRMove(period int) {
+	g := newGMux(period)
+	pidA, pidB := uint16(0x100), uint16(0x101)
+	g.opAdd(pidA, StreamTypeH264Video)
+	g.opAdd(pidB, StreamTypeAACAudio)
+	g.opSetPCR(pidA)
+	d, u := vMuxData(pidA, 1, 1, 20)
+	g.opWriteData(d, u)
+	g.opSetPCR(pidB)
+	g.opWriteTables()
+	d, u = vMuxData(pidB, 0, 1, 5)
+	g.opWriteData(d, u)
+	g.opSetPCR(pidA)
+	d, u = vMuxData(pidA, 0, 1, 190)
+	g.opWriteData(d, u)
+	g.opWriteTables()
+	g.demuxAll()
+	vreach("mux.pcrmove.end")
 }
